@@ -506,6 +506,23 @@ RemoveViaParent(s) ==
          /\ Ok("RemoveViaParent", [s |-> s], {par})
     /\ UNCHANGED <<mem, reg, fnode, mode, Aux>>
 
+\* one remove_children call with TWO children: two entities (of the same or of different kinds: they live in different
+\* containers of the parent's node), or a data set together with a property group of the same object (which the removal
+\* of the data may already have emptied and deleted)
+RemovePair(c, x, y) ==
+    /\ Do("RemovePair") /\ Writable /\ c \in Att \cap Cont /\ c \notin dirty /\ x \in kids[c]
+    /\ \/ (y \in kids[c] /\ x < y)
+       \/ (y \in PS /\ pg[y].owner = c /\ x \in DS)
+    /\ LET S == {x} \cup (IF y \in ES THEN {y} ELSE {}) IN
+       /\ \A z \in S : Sub(z) \cap dirty = {}
+       /\ kids' = [kids EXCEPT ![c] = @ \ S]
+       /\ flink' = flink \ {<<c, z>> : z \in S}
+       /\ pg' = LET t == Scrub(pg, S \cap DS) IN IF y \in PS THEN [t EXCEPT ![y] = NoPG] ELSE t
+       /\ fpg' = LET t == Scrub(fpg, S \cap DS) IN IF y \in PS THEN [t EXCEPT ![y] = NoPG] ELSE t
+       /\ held' = held \cup S
+       /\ Ok("RemovePair", [c |-> c, x |-> x, y |-> y], {c})
+    /\ UNCHANGED <<mem, reg, fnode, mode, Aux>>
+
 \* c.remove_children([x]) where x is not a child of c - an entity under another parent, or a property group of another
 \* object - changes nothing: not in memory (entity_container.py:236-239, object_base.py:513-515 skip it) and not in the file
 RemoveNotAChild(c, x) ==
@@ -771,6 +788,7 @@ Step ==
     \/ \E d \in DS, y \in W2E : Copy2Data(d, y)
     \/ \E c \in GS \cup OS, x \in ES \cup PS : RemoveNotAChild(c, x)
     \/ \E x \in GS, q \in GS : CopyIntoSelf(x, q)
+    \/ \E c \in Cont, x \in ES, y \in ES \cup PS : RemovePair(c, x, y)
     \/ \E o \in OS, n \in Names, v \in Vals, e \in DS : AddDataLike(o, n, v, e)
 
 CmodeUpdate == cmode' = IF last'.act = "Open" /\ last'.args.fresh THEN last'.args.m ELSE cmode
